@@ -68,7 +68,8 @@ class C12(TalCheck):
         base = run_real(template, tmpl, [], None)
         counts: dict[int, int] = {}
         for k in base["history"]:
-            counts[k] = counts.get(k, 0) + 1
+            if k != "T":            # (calls of the translation function)
+                counts[k] = counts.get(k, 0) + 1
         plans = []
         for k in sorted(counts):
             for cls in ALL_CLASSES:
